@@ -702,6 +702,9 @@ int main(int argc, char **argv) {
                 ev_begin("begin"); ev_end();
                 for(size_t i = 0; i < nl; i++) run_line(lines[i]);
                 ev_begin("done"); ev_end();
+#ifdef VERIF_COV
+                { extern void __gcov_dump(void); __gcov_dump(); }
+#endif
                 _exit(0);
             }
             int st = 0; waitpid(pid, &st, 0);
